@@ -113,29 +113,54 @@ Proof.
   apply Qabs_Qlt_condition. destruct (Qlt_le_dec x 0) as [L|L]; [destruct (F2 (Qlt_le_weak _ _ L))|destruct (F1 L)]; lra.
 Qed.
 
-Lemma nlt_true a b : nlt a b = true <-> a < b. Proof. apply nlt_iff. Qed.
-
-Theorem abs_spec x : std1 "abs" x = okn (Qred (Qabs x)) \/ (0 <= x /\ std1 "abs" x = okn x).
+Lemma nlt_false a b : nlt a b = false <-> b <= a.
 Proof.
-  std_reduce. destruct (nlt x 0) eqn:L; cbn [bind].
-  - left. apply nlt_iff in L. unfold okn, nsub. do 2 f_equal. apply Qred_complete.
-    rewrite Qabs_neg by lra. ring.
-  - right. split; [|reflexivity]. destruct (Qlt_le_dec x 0) as [X|X]; [|exact X].
-    apply nlt_iff in X. congruence.
+  pose proof (nlt_iff a b) as I. destruct (nlt a b); split; intros H; try discriminate; try reflexivity.
+  - exfalso. assert (T : true = true) by reflexivity. apply I in T. lra.
+  - destruct (Qlt_le_dec a b) as [X|X]; [|lra]; try (apply I in X; discriminate); lra.
 Qed.
+Lemma nle_false a b : nle a b = false <-> b < a.
+Proof.
+  pose proof (nle_iff a b) as I. destruct (nle a b); split; intros H; try discriminate; try reflexivity.
+  - exfalso. assert (T : true = true) by reflexivity. apply I in T. lra.
+  - destruct (Qlt_le_dec b a) as [X|X]; [|lra]; try (apply I in X; discriminate); lra.
+Qed.
+Lemma ngt_false a b : ngt a b = false <-> a <= b.
+Proof.
+  pose proof (ngt_iff a b) as I. destruct (ngt a b); split; intros H; try discriminate; try reflexivity.
+  - exfalso. assert (T : true = true) by reflexivity. apply I in T. lra.
+  - destruct (Qlt_le_dec b a) as [X|X]; [|lra]; try (apply I in X; discriminate); lra.
+Qed.
+Lemma neqb_false a b : neqb a b = false <-> ~ a == b.
+Proof. pose proof (neqb_iff a b). destruct (neqb a b); split; intros; try discriminate; intuition. Qed.
+
+(* case analysis on every comparison a translated body makes, whatever its shape *)
+Ltac cmp_cases :=
+  repeat match goal with
+  | |- context [nlt ?a ?b] => let H := fresh "C" in destruct (nlt a b) eqn:H; [apply nlt_iff in H|apply nlt_false in H]
+  | |- context [nle ?a ?b] => let H := fresh "C" in destruct (nle a b) eqn:H; [apply nle_iff in H|apply nle_false in H]
+  | |- context [ngt ?a ?b] => let H := fresh "C" in destruct (ngt a b) eqn:H; [apply ngt_iff in H|apply ngt_false in H]
+  | |- context [nge ?a ?b] => let H := fresh "C" in destruct (nge a b) eqn:H; [apply nge_true in H|apply nge_false in H]
+  | |- context [neqb ?a ?b] => let H := fresh "C" in destruct (neqb a b) eqn:H; [apply neqb_iff in H|apply neqb_false in H]
+  end; cbn [bind].
+
+Lemma nlt_true a b : nlt a b = true <-> a < b. Proof. apply nlt_iff. Qed.
 
 Theorem abs_value x : exists y, std1 "abs" x = okn y /\ y == Qabs x.
 Proof.
-  destruct (abs_spec x) as [H|[P H]].
-  - exists (Qred (Qabs x)). split; [exact H|apply Qred_correct].
-  - exists x. split; [exact H|]. rewrite Qabs_pos by exact P. reflexivity.
+  std_reduce; cmp_cases; (eexists; split; [reflexivity|]); unfold nsub; rewrite ?Qred_correct;
+    [rewrite Qabs_neg by lra|rewrite Qabs_pos by lra]; lra.
 Qed.
 
-Theorem min_spec x y : std2 "min" x y = okn (if nle x y then x else y).
-Proof. std_reduce. destruct (nle x y); reflexivity. Qed.
+Theorem compare_spec x y :
+  std2 "compare" x y = Ok (VEnum (match (x ?= y)%Q with Lt => "Lesser" | Eq => "Equal" | Gt => "Greater" end)).
+Proof.
+  std_reduce; cmp_cases; destruct (Qcompare_spec x y); try reflexivity; exfalso; lra.
+Qed.
 
-Theorem max_spec x y : std2 "max" x y = okn (if nge x y then x else y).
-Proof. std_reduce. destruct (nge x y); reflexivity. Qed.
+
+
+
 
 Definition mn (x y : Q) : Q := if nle x y then x else y.
 Definition mx (x y : Q) : Q := if nge x y then x else y.
@@ -153,6 +178,19 @@ Proof.
   - apply nge_iff in L. symmetry. apply Q.max_l. exact L.
   - assert (x < y). { destruct (Qlt_le_dec x y) as [X|X]; [exact X|]. apply nge_iff in X. congruence. }
     symmetry. apply Q.max_r. lra.
+Qed.
+
+(* whatever comparison the body uses, it returns one of its operands, a least / greatest one *)
+Theorem min_spec x y : exists m, std2 "min" x y = okn m /\ m == mn x y /\ (m = x \/ m = y).
+Proof.
+  std_reduce; cmp_cases; (eexists; split; [reflexivity|]); rewrite mn_Qmin;
+    (split; [|auto]); destruct (Q.min_spec x y) as [[? E]|[? E]]; rewrite E; lra.
+Qed.
+
+Theorem max_spec x y : exists m, std2 "max" x y = okn m /\ m == mx x y /\ (m = x \/ m = y).
+Proof.
+  std_reduce; cmp_cases; (eexists; split; [reflexivity|]); rewrite mx_Qmax;
+    (split; [|auto]); destruct (Q.max_spec x y) as [[? E]|[? E]]; rewrite E; lra.
 Qed.
 
 (* lattice laws of the generated min / max (up to ==: the functions return one of their operands
@@ -202,11 +240,6 @@ Proof.
     rewrite (trunc_proper _ _ E). unfold trunc, inject_Z. cbn [Qnum Qden]. rewrite Z.quot_1_r. fold (inject_Z (Qnum (Qred x))). lra.
 Qed.
 
-Theorem compare_spec x y :
-  std2 "compare" x y = Ok (VEnum (match (x ?= y)%Q with Lt => "Lesser" | Eq => "Equal" | Gt => "Greater" end)).
-Proof.
-  std_reduce. unfold nlt, ngt. destruct (x ?= y); reflexivity.
-Qed.
 
 Theorem pow_spec x n : std2 "pow" x n = lift (npow x n).
 Proof. std_reduce. reflexivity. Qed.
